@@ -41,29 +41,24 @@ type GenOptions struct {
 	MaxBlocks        int      // max full blocks per file (default 3)
 }
 
-// Gen draws a case.
+// Gen draws a case. Files and ops are drawn as rapid slices of custom generators so that the
+// shrinker can delete whole elements.
 func Gen(t *rapid.T, o GenOptions) Case {
 	if o.MaxBlocks == 0 {
 		o.MaxBlocks = 3
 	}
-	var c Case
-	nf := rapid.IntRange(2, o.MaxFiles).Draw(t, "nfiles")
-	for i := 0; i < nf; i++ {
+	fileGen := rapid.Custom(func(t *rapid.T) nodelite.FileSpec {
 		var s nodelite.FileSpec
-		nb := rapid.IntRange(0, o.MaxBlocks).Draw(t, fmt.Sprintf("f%d_blocks", i))
-		for j := 0; j < nb; j++ {
-			s.Tags = append(s.Tags, rapid.IntRange(0, 2).Draw(t, fmt.Sprintf("f%d_tag", i)))
-		}
-		s.Tail = rapid.SampledFrom([]int{0, 0, 9, 4096}).Draw(t, fmt.Sprintf("f%d_tail", i))
-		if nb == 0 && s.Tail == 0 {
+		s.Tags = rapid.SliceOfN(rapid.IntRange(0, 2), 0, o.MaxBlocks).Draw(t, "tags")
+		s.Tail = rapid.SampledFrom([]int{0, 0, 9, 4096}).Draw(t, "tail")
+		if len(s.Tags) == 0 && s.Tail == 0 {
 			s.Tail = 9
 		}
-		s.Salt = rapid.IntRange(0, 1).Draw(t, fmt.Sprintf("f%d_salt", i))
-		c.Files = append(c.Files, s)
-	}
-	n := rapid.IntRange(1, o.MaxOps).Draw(t, "nops")
-	for i := 0; i < n; i++ {
-		op := Op{K: rapid.SampledFrom(o.Kinds).Draw(t, "k"), F: rapid.IntRange(0, nf-1).Draw(t, "f")}
+		s.Salt = rapid.IntRange(0, 1).Draw(t, "salt")
+		return s
+	})
+	opGen := rapid.Custom(func(t *rapid.T) Op {
+		op := Op{K: rapid.SampledFrom(o.Kinds).Draw(t, "k"), F: rapid.IntRange(0, o.MaxFiles-1).Draw(t, "f")}
 		switch op.K {
 		case "upload", "pin", "unpin":
 			op.Flag = rapid.Bool().Draw(t, "flag")
@@ -72,8 +67,11 @@ func Gen(t *rapid.T, o GenOptions) Case {
 		case "gc":
 			op.Arg = rapid.SampledFrom([]int{1, 1, 2, 2, 3, 4, 6, 8}).Draw(t, "cap")
 		}
-		c.Ops = append(c.Ops, op)
-	}
+		return op
+	})
+	var c Case
+	c.Files = rapid.SliceOfN(fileGen, 2, o.MaxFiles).Draw(t, "files")
+	c.Ops = rapid.SliceOfN(opGen, 1, o.MaxOps).Draw(t, "ops")
 	return c
 }
 
@@ -120,14 +118,18 @@ type World struct {
 var worldSeq = 1000
 
 // NewWorld uploads every file of the case to a fresh source node and creates an empty node under test.
-func NewWorld(c Case) (*World, error) {
+func NewWorld(c Case) (*World, error) { return NewWorldCap(c, 0) }
+
+// NewWorldCap is NewWorld with a real (small) cache capacity on the node under test, so that
+// the store's own background collection worker runs.
+func NewWorldCap(c Case, capacity uint64) (*World, error) {
 	worldSeq += 2
 	w := &World{Net: nodelite.NewNet()}
 	var err error
 	if w.S, err = w.Net.NewNode(nodelite.AddrN(worldSeq), nodelite.Options{}); err != nil {
 		return nil, err
 	}
-	if w.N, err = w.Net.NewNode(nodelite.AddrN(worldSeq+1), nodelite.Options{}); err != nil {
+	if w.N, err = w.Net.NewNode(nodelite.AddrN(worldSeq+1), nodelite.Options{Capacity: capacity}); err != nil {
 		return nil, err
 	}
 	for i, spec := range c.Files {
